@@ -137,6 +137,18 @@ def specs(ctx, n):
             calls = [dict(n_iter=n0, memory=calls[0]["memory"])] + calls
         out.append(dict(name=name, space=space, table=table, script=script, calls=calls, seed=rng.randrange(10 ** 6),
                         init=gen.gen_initialize(rng, space), scalar=rng.choice(["float", "np"])))
+    # long runs on a small space with few initial positions and a large window: optimizers that restart / rebuild their internal state late
+    # in a run (a collapsed simplex, an exhausted pattern, a restart hill climber) must leave the score history the rule reads alone
+    for rd in range(1 if ctx.quick else 4):
+        for name in ["DownhillSimplexOptimizer", "DownhillSimplexOptimizer", "PatternSearch", "RandomRestartHillClimbingOptimizer", "PowellsMethod",
+                     "DirectAlgorithm", "ParallelTemperingOptimizer"]:
+            sz = rng.choice([8, 10])
+            space = {"x0": np.arange(sz), "x1": np.arange(sz)}
+            pk = (rng.randrange(sz), rng.randrange(sz))
+            table = {p_: (-float((p_[0] - pk[0]) ** 2 + (p_[1] - pk[1]) ** 2), None) for p_ in gen.all_positions(space)}
+            es = cfg_dict(rng.choice([25, 40]), None, None, False)
+            out.append(dict(name=name, space=space, table=table, script=[], calls=[dict(n_iter=rng.choice([90, 120]), early_stopping=es, memory=rng.random() < 0.5)],
+                            seed=rng.randrange(10 ** 6), init={"random": 3}, scalar="float"))
     # population optimizers with a small population and few initial positions, a score sequence that improves and then stalls: the rule
     # fires well inside the iteration phase, where each member's own tracker (not the driver) sees the scores
     for rd in range(2 if ctx.quick else 8):
@@ -200,7 +212,15 @@ def d_unit_and_monitor(ctx, n):
         k = next((j for j in range(1, c["n_iter"] + 1)
                   if spec_rule(full[:j], es["n_iter_no_change"], es.get("tol_abs"), es.get("tol_rel"))), None)
         expect = k if k is not None else c["n_iter"]
-        if c.get("memory"):
+        if not spec["script"]:
+            # a table objective (no scripted sequence): the scores of the steps are those of search_data (cross-checked against the driver's
+            # history above)
+            seen = [r_["score"] for r_ in o["rows"]]
+            k2 = next((j for j in range(1, len(seen) + 1)
+                       if spec_rule(seen[:j], es["n_iter_no_change"], es.get("tol_abs"), es.get("tol_rel"))), None)
+            ok = (len(seen) == k2) if k2 is not None else (len(seen) == c["n_iter"])
+            expect = k2 if k2 is not None else c["n_iter"]
+        elif c.get("memory"):
             # with memory a revisited position re-uses the first result, so the scripted sequence shifts: use observed scores
             k2 = next((j for j in range(1, len(scores) + 1)
                        if spec_rule(scores[:j], es["n_iter_no_change"], es.get("tol_abs"), es.get("tol_rel"))), None)
